@@ -1,4 +1,6 @@
 """Order / time rules: C16.R1, C16.R3, C06.R3, C06.R4, C13.R1, C13.R2 (E3 mutator audit + E4 order-domain tables)."""
+import re
+
 from ..core import rule, Inconclusive
 from ..facts import AnchorMissing, SE, is_local
 from ..symex import render, strip, Sym
@@ -336,7 +338,55 @@ def release_chains(ctx, facts, pr, name):
                 break
         if not builds:
             ctx.note('%s: the chain %s does not build WindowResult in a closure the rule can see' % (name, names))
-    return len(maximal)
+    # the same pipeline written as a loop: `for w in self.ws.drain(..k) { if w.active { results.push(..) } }`.  Every drained slot is
+    # looked at iff the loop is left only when the drain iterator is exhausted (no break / return in the body); results only under
+    # a test of `.active`.
+    loops = 0
+    for bi, t in pr.calls():
+        if (t['callee'].get('path') or '') != 'std::iter::Iterator::next' or not t['args']:
+            continue
+        recv = render(strip(sym.operand(t['args'][0])))
+        if '::drain(' not in recv or 'self' not in recv or '.ws' not in recv:
+            continue
+        if any(('Iterator::%s(' % x) in recv for x in TRUNCATING):
+            ctx.viol('%s|release-chain|loop' % pr.path, t['at'], 'the loop over the drained windows iterates a truncated view (`%s`)' % recv[:100], None)
+        loops += 1
+        nxt = t.get('target')
+        sw = pr.blocks[nxt]['t'] if nxt is not None else None
+        body_entry = None
+        if sw and sw['t'] == 'switch':
+            for v, tb in sw['targets']:
+                if v == '1':
+                    body_entry = tb
+            if body_entry is None and len(sw['targets']) == 1:
+                body_entry = sw['otherwise']
+        if body_entry is None:
+            ctx.note('%s: loop over drained windows at %s not understood' % (name, t['at']))
+            continue
+        body = {b for b in pr.reachable_from(body_entry) if bi in pr.reachable_from(b)}
+        can_ret = set()
+        for rb in pr.return_blocks():
+            can_ret.add(rb)
+        exits = []
+        for b in body:
+            if b == nxt or b == bi:
+                continue     # leaving through the None arm of the iterator is the regular end of the loop
+            for s_ in pr.succ(b):
+                if s_ not in body and s_ != bi and s_ != nxt and any(r_ in pr.reachable_from(s_) or r_ == s_ for r_ in pr.return_blocks()):
+                    exits.append((b, s_))
+        ctx.inst('%s|release loop|%s' % (name, t['at']), {'drained': recv[:100], 'body blocks': len(body), 'early exits': len(exits)})
+        if exits:
+            ctx.viol('%s|release-chain|loop-exit' % pr.path, t['at'],
+                     'the loop over the windows drained from the manager can be left before the drain iterator is exhausted: the remaining drained '
+                     'slots are removed without producing their result (lost window)', None)
+        for b2, st in q.aggregates(pr, 'renoir::operator::window::WindowResult'):
+            if b2 in body:
+                dnf = q.cond_of_block(facts, pr, b2)
+                if not q.cond_has(dnf, lambda a_: a_[0] == 'bool' and a_[1].endswith('.active') and a_[2] is True):
+                    ctx.viol('%s|inactive-results' % pr.path, st['at'],
+                             'a drained window becomes a result without a test of its `active` flag: slots that never received an element '
+                             'would produce (empty) results', None)
+    return len(maximal) + loops
 
 
 def bool_closures(facts, fn, call_suffix):
@@ -422,13 +472,22 @@ def event_time_release(ctx):
             ctx.viol('%s|release-guard' % ET, t['at'],
                      'EventTimeWindowManager releases a window iff end {%s} watermark: a window whose end equals the watermark is '
                      'kept, and its result (stamped `end`) is emitted after Watermark(end) was forwarded' % ''.join(sorted(rel)), None)
-    # results are stamped with the window end
-    for g in facts.closures_of(pr):
+    # results are stamped with the window end (built in a `map` closure or in the body of a loop)
+    for g in [pr] + facts.closures_of(pr):
         s2 = q.sym(facts, g)
         for bi, s in q.aggregates(g, 'renoir::operator::window::WindowResult', 'Timestamped'):
             stamp = render(strip(s2.operand(s['rv']['o'][1])))
             ctx.inst('EventTime::process|stamp|%s' % s['at'], {'stamp': stamp})
-            if released_terms and norm_term(stamp) not in released_terms:
+            def slot_field(x):
+                # `<a slot of self.ws>.f` whatever names the slot: the closure parameter of an adapter or the element of the drain loop
+                x = norm_term(x)
+                if re.fullmatch(r'\^?arg\d+\.\w+', x):
+                    return x.rsplit('.', 1)[1]
+                if 'self.ws' in x and ('drain(' in x or 'iter' in x) and re.search(r'as Some\)\.0\.(\w+)$', x):
+                    return re.search(r'as Some\)\.0\.(\w+)$', x).group(1)
+                return None
+            same_field = slot_field(stamp) is not None and any(slot_field(stamp) == slot_field(r_) for r_ in released_terms)
+            if released_terms and norm_term(stamp) not in released_terms and not same_field:
                 ctx.viol('%s|stamp' % ET, s['at'],
                          'event-time window results are stamped with `%s` but a window is kept open until a watermark reaches `%s`: a '
                          'watermark between the two is forwarded while the window is open, and the result later carries a timestamp at or '
